@@ -1034,7 +1034,7 @@ func apiCheckErrors(t *testing.T) {
 		{"[?(@.x)]", "[?(@.x)]", "object/array"}, {"[0]", "[0]", "array"}, {"[0:1]", "[0:1]", "array"}, {"[0,1]", "[0,1]", "array"},
 	}
 	vals := []struct{ doc, found string }{
-		{`{"v":null}`, "null"}, {`{"v":1}`, "float64"}, {`{"v":"s"}`, "string"}, {`{"v":true}`, "bool"},
+		{`{"v":null}`, "null"}, {`{"v":1}`, "float64"}, {`{"v":"s"}`, "string"}, {`{"v":true}`, "bool"}, {`{"v":0}`, "float64"}, {`{"v":""}`, "string"}, {`{"v":false}`, "bool"}, {`{"v":-0.0}`, "float64"},
 		{`{"v":{}}`, "map[string]interface {}"}, {`{"v":[]}`, "[]interface {}"},
 	}
 	for _, k := range kinds {
@@ -2223,6 +2223,38 @@ func apiCheckParseIndependent(t *testing.T) {
 			return
 		}
 	}
+	// several Configs in one call: only what the documentation says is used, and no Config is changed by the call
+	{
+		a := Config{}
+		a.SetFilterFunction("fa", func(v interface{}) (interface{}, error) { return "A", nil })
+		a.SetAggregateFunction("ga", func(v []interface{}) (interface{}, error) { return "GA", nil })
+		b := Config{}
+		b.SetFilterFunction("fb", func(v interface{}) (interface{}, error) { return "B", nil })
+		b.SetAggregateFunction("gb", func(v []interface{}) (interface{}, error) { return "GB", nil })
+		b.SetAccessorMode()
+		outcome := func(path string, cfgs ...Config) string {
+			apiCount()
+			res, err := Retrieve(path, doc, cfgs...)
+			return fmt.Sprintf("%v %T", res, err)
+		}
+		before := []string{outcome(`$.a.fb()`, a), outcome(`$.b.gb()`, a), outcome(`$.a.fa()`, b), outcome(`$.b.ga()`, b), outcome(`$.a`, a)}
+		for _, p := range []string{`$.a.fa()`, `$.a.fb()`, `$.b.ga()`, `$.b.gb()`, `$.a`, `$.a.nofunc()`} {
+			outcome(p, a, b)
+			outcome(p, b, a)
+			outcome(p, a, b, withF)
+		}
+		after := []string{outcome(`$.a.fb()`, a), outcome(`$.b.gb()`, a), outcome(`$.a.fa()`, b), outcome(`$.b.ga()`, b), outcome(`$.a`, a)}
+		for i := range before {
+			if before[i] != after[i] {
+				t.Errorf("REPRODUCED: calls given several Configs changed what a single Config does: probe %d was %q, is now %q", i, before[i], after[i])
+				return
+			}
+		}
+		probe("after calls given several Configs")
+		if t.Failed() {
+			return
+		}
+	}
 	// a parsed function keeps the functions it was parsed with
 	cfg := Config{}
 	cfg.SetFilterFunction("f", func(v interface{}) (interface{}, error) { return "old", nil })
@@ -3117,6 +3149,12 @@ type apiStruct struct{ X int }
 // C20: documents with non-JSON leaves
 type apiFixed int
 
+// statically comparable, dynamically not: == on two such values panics when Payload holds a slice, map or func
+type apiBox struct {
+	Name    string
+	Payload interface{}
+}
+
 func (f apiFixed) Float64() (float64, error) { return float64(f) / 100, nil }
 
 func apiForeignDocs() ([]interface{}, []string) {
@@ -3124,7 +3162,8 @@ func apiForeignDocs() ([]interface{}, []string) {
 	fn := func() {}
 	var np *int
 	leaves := []interface{}{apiStruct{1}, &apiStruct{2}, map[string]int{"a": 1}, []int{1, 2}, 7, int64(7), uint8(1), np, fn, ch, struct{}{}, [2]int{1, 2},
-		map[int]string{1: "a"}, []string{"a"}, json.Number("1"), float32(1.5), complex(1, 2), []interface{}{fn}, map[string]interface{}{"f": fn}, error(fmt.Errorf("e")), apiFixed(150), (*json.Number)(nil), new(apiFixed)}
+		map[int]string{1: "a"}, []string{"a"}, json.Number("1"), float32(1.5), complex(1, 2), []interface{}{fn}, map[string]interface{}{"f": fn}, error(fmt.Errorf("e")), apiFixed(150), (*json.Number)(nil), new(apiFixed),
+		apiBox{"b", []int{1, 2}}, apiBox{"m", map[string]int{"a": 1}}, [1]interface{}{[]int{1}}, apiBox{"f", fn}, &apiBox{"p", []int{1}}, apiBox{"i", 1}}
 	var docs []interface{}
 	var names []string
 	for i, l := range leaves {
